@@ -96,7 +96,8 @@ def correspond(ctx):
     tagcount = {}; chol2_runs = [0]
     for i in range(npairs):
         qp = rng.random() < 0.35
-        pr = PR.planted_conelp(rng, 'optimal', P_rank=(rng.randint(0, 3) if qp else None))
+        if i % 6 == 5: pr = PR.planted_sparse_lp(rng, qp)          # larger sparse componentwise problems with equality constraints
+        else: pr = PR.planted_conelp(rng, 'optimal', P_rank=(rng.randint(0, 3) if qp else None))
         c, G, h, A, b, P = PR.to_cvx(cvxopt, pr)
         dims = pr.dims
         hasQS = bool(dims['q'] or dims['s'])
